@@ -1,5 +1,6 @@
 import Irismod.Props.C19
 import Irismod.Gen.RecordMutators
+import Irismod.Proofs.RecordMonitor
 open Irismod Irismod.Record Irismod.Props.C19
 #print axioms rejected_unchanged
 #print axioms reads_unchanged
@@ -12,5 +13,19 @@ open Irismod Irismod.Record Irismod.Props.C19
 #print axioms immutable_forever
 #print axioms every_returned_id_reads_back
 #print axioms Irismod.Gen.RecordMutators.one_writer_no_deleter
+-- monitor soundness: every clause `drv-record monitor C19` evaluates (Spec.C19.stepFails) holds on every model step (Proofs/RecordMonitor.lean)
+#print axioms Irismod.Proofs.RecordMonitor.monitor_sound
+#print axioms Irismod.Proofs.RecordMonitor.monitor_sound_model
+#print axioms Irismod.Proofs.RecordMonitor.line_inv
+#print axioms Irismod.Proofs.RecordMonitor.reset_inv
+#print axioms Irismod.Proofs.RecordMonitor.monitor_sound_run
+#print axioms Irismod.Proofs.RecordMonitor.step_never_panics
+#print axioms Irismod.Proofs.RecordMonitor.hexId_inj
+#print axioms Irismod.Proofs.RecordMonitor.isHex64_hexId
+#print axioms Irismod.Proofs.RecordMonitor.sha256_size
+#print axioms Irismod.Proofs.RecordMonitor.opEntries_id_size
+#print axioms Irismod.Proofs.RecordMonitor.MonInv.known_learn
 -- non-vacuity: one tx with two byte-identical messages + the same tx bytes again: three creations, three distinct ids, all read back
 #eval s!"nonvacuous {demoNonvacuous}"
+-- non-vacuity of monitor soundness: the monitor (stepFails / advance) passes every line of the model's own observation stream of the demo history
+#eval s!"nonvacuous monitor {Irismod.Proofs.RecordMonitor.monRun {} {} demoOps}"
